@@ -28,7 +28,7 @@ def kcs(a):
     return C.clist([kc(c) for c in a])
 
 
-def run_one(rng, fast, warm):
+def run_one(rng, fast, warm, fixed=None):
     """one real session; returns (views, feed) : views = [(hook, tf, 1m candles, tf candles, current candle)], feed info for the step simulator"""
     from . import engine as E
     C.use_repo()
@@ -42,6 +42,10 @@ def run_one(rng, fast, warm):
     extra = rng.choice([[], ['15m'], ['30m'], ['1h'], ['5m', '30m']])
     extra = [t for t in extra if t != tf]
     n_min = rng.choice([47, 60, 95, 130])
+    if fixed is not None:
+        # timeframes that are not multiples of one another: windows of the larger one end inside windows of the smaller one
+        tf, extra = fixed[0], list(fixed[1])
+        n_min = max(n_min, 3 * max(TFM[t] for t in [tf] + extra) + 7)
     views, parts = [], {}
     seed = rng.randrange(1 << 30)
 
@@ -78,6 +82,11 @@ def run_one(rng, fast, warm):
     wc = None
     if warm:
         wlen = 60 * rng.choice([1, 2])
+        import math as _m
+        unit = 1
+        for t_ in [tf] + extra: unit = unit * TFM[t_] // _m.gcd(unit, TFM[t_])
+        if wlen % unit:
+            wlen = unit * rng.choice([1, 2])          # the property's hypothesis: the warm-up length is aligned to every route timeframe
         w = E.gen_candles(rng, wlen, base=cs[0][1])
         for i, c in enumerate(w):
             c[0] = cs[0][0] - (wlen - i) * E.M
@@ -140,7 +149,9 @@ def run(tier, seed, replay=None):
     res.oblige('translator regenerated the timeframe tables', ok, '\n'.join(msgs))
     C.standard_proof_step(res, 'Props.C07', THEOREMS, ['theories/Props/C07.vo', 'theories/Run/C07Run.vo'])
     rng = C.rng_for(seed, PID)
-    runs = [run_one(rng, fast=(k % 3 == 2), warm=(k % 2 == 0)) for k in range(12 if tier == 'quick' else 120)]
+    FIXED = [('3m', ['5m']), ('30m', ['45m']), ('5m', ['3m', '15m']), ('45m', ['30m'])]
+    runs = [run_one(rng, fast=(k % 3 == 2), warm=(k % 2 == 0), fixed=(FIXED[(k // 3) % len(FIXED)] if k % 3 != 0 and (k // 3) < 2 * len(FIXED) else None))
+            for k in range(12 if tier == 'quick' else 120)]
     errors = [r for r in runs if r['error']]
     view_cases, view_meta, feed_cases, py_bad = [], [], [], []
     for r in runs:
